@@ -514,7 +514,7 @@ impl Prop for Library {
             .into()
     }
     fn cases(&self, tier: Tier) -> u32 {
-        tier.pick(120, 6_000)
+        tier.pick(600, 12_000)
     }
     fn max_threads(&self) -> usize {
         4
